@@ -23,6 +23,7 @@ type ReplaySpec struct {
 	Call string // Go statement that runs the real code (default cpu.Step())
 	Diff string // Go expression giving the difference mask (default vsStepDiff(...))
 	Intr bool   // the pending request is part of the pre-state
+	Rel  *relCase
 	Note string
 }
 
@@ -185,6 +186,79 @@ func (ld *Loaded) genStepReplay(model map[string]uint64, rs *ReplaySpec, idx int
 	return sb.String()
 }
 
+// genRelReplay: replay of a relational (DD/FD) counterexample: two CPUs, two Steps.
+func (ld *Loaded) genRelReplay(model map[string]uint64, rs *ReplaySpec, idx int) string {
+	var sb strings.Builder
+	rc := rs.Rel
+	fmt.Fprintf(&sb, "func vsReplayCase%d() {\n", idx)
+	sb.WriteString("\tmk := func(prefix uint8, ix, iy uint16) (*CPU, *VGhost) {\n\t\tg := new(VGhost)\n")
+	for _, f := range []string{"Mem", "InVal"} {
+		m := cells(model, f)
+		var ks []uint64
+		for k := range m {
+			ks = append(ks, k)
+		}
+		sort.Slice(ks, func(i, j int) bool { return ks[i] < ks[j] })
+		for _, k := range ks {
+			fmt.Fprintf(&sb, "\t\tg.%s[0x%x] = 0x%02x\n", f, k, m[k])
+		}
+	}
+	sb.WriteString("\t\tcpu := &CPU{}\n")
+	kinds := map[string]string{}
+	ld.leafKinds(ld.pkgs[modPath].Type("CPU").Type(), "cpu", kinds)
+	var paths []string
+	for p := range kinds {
+		paths = append(paths, p)
+	}
+	sort.Strings(paths)
+	for _, p := range paths {
+		v, ok := model["pre:"+p]
+		if !ok {
+			continue
+		}
+		switch k := kinds[p]; {
+		case k == "bool":
+			fmt.Fprintf(&sb, "\t\t%s = %v\n", p, v != 0)
+		case strings.HasPrefix(k, "int"):
+			var w int
+			fmt.Sscanf(k, "int%d", &w)
+			fmt.Fprintf(&sb, "\t\t%s = %d\n", p, sext64(v, w))
+		default:
+			fmt.Fprintf(&sb, "\t\t%s = 0x%x\n", p, v)
+		}
+	}
+	sb.WriteString("\t\tcpu.IX, cpu.IY = ix, iy\n\t\tg.Mem[cpu.PC] = prefix\n")
+	if rc.cbx {
+		fmt.Fprintf(&sb, "\t\tg.Mem[cpu.PC+1] = 0xcb\n\t\tg.Mem[cpu.PC+3] = 0x%02x\n", rc.op)
+	} else {
+		fmt.Fprintf(&sb, "\t\tg.Mem[cpu.PC+1] = 0x%02x\n", rc.op)
+	}
+	sb.WriteString("\t\tcpu.Memory = &VsRecMem{G: g}\n")
+	if model["nil:cpu.IO"] == 0 {
+		sb.WriteString("\t\tcpu.IO = &VsRecIO{G: g}\n")
+	}
+	if model["nil:cpu.RETNHandler"] == 0 {
+		sb.WriteString("\t\tcpu.RETNHandler = &VsRecHandler{G: g}\n")
+	}
+	if model["nil:cpu.RETIHandler"] == 0 {
+		sb.WriteString("\t\tcpu.RETIHandler = &VsRecHandler{G: g}\n")
+	}
+	sb.WriteString("\t\tcpu.Interrupt = nil\n\t\treturn cpu, g\n\t}\n")
+	ix, iy, other := model["pre:cpu.States.SPR.IX"], model["pre:cpu.States.SPR.IY"], model["rel:other"]
+	switch rc.kind {
+	case "DDFD":
+		fmt.Fprintf(&sb, "\tc1, g1 := mk(0xdd, 0x%x, 0x%x)\n\tc2, g2 := mk(0xfd, 0x%x, 0x%x)\n", ix, iy, iy, ix)
+	case "NI-DD":
+		fmt.Fprintf(&sb, "\tc1, g1 := mk(0xdd, 0x%x, 0x%x)\n\tc2, g2 := mk(0xdd, 0x%x, 0x%x)\n", ix, iy, ix, other)
+	case "NI-FD":
+		fmt.Fprintf(&sb, "\tc1, g1 := mk(0xfd, 0x%x, 0x%x)\n\tc2, g2 := mk(0xfd, 0x%x, 0x%x)\n", ix, iy, other, iy)
+	}
+	sb.WriteString("\tpc := c1.PC\n\tfmt.Printf(\"REPLAY-PRE  %s\\n\", vsDescribe(c1))\n")
+	sb.WriteString("\tfunc() {\n\t\tdefer func() {\n\t\t\tif r := recover(); r != nil {\n\t\t\t\tfmt.Printf(\"REPLAY-PANIC %v\\n\", r)\n\t\t\t}\n\t\t}()\n\t\tc1.Step()\n\t\tc2.Step()\n\t}()\n")
+	fmt.Fprintf(&sb, "\tif d := vsRelDiff(%q, c1, g1, c2, g2, pc); d != \"\" {\n\t\tfmt.Printf(\"REPLAY-DIVERGENCE %%s\\n\", d)\n\t} else {\n\t\tfmt.Println(\"REPLAY-AGREE\")\n\t}\n}\n", rc.kind)
+	return sb.String()
+}
+
 // runReplay injects the test by overlay and runs it on the real code.
 func (r *Run) runReplay(ld *Loaded, testSrc string, pkgDir string) (string, error) {
 	dir, err := os.MkdirTemp("", "vreplay")
@@ -239,8 +313,13 @@ func (r *Run) reportFailures(ld *Loaded, os_ []*OblResult, compMask func(string)
 				rf.Model[k] = fmt.Sprintf("0x%x", v)
 			}
 		}
-		if o.Status == "failed" && o.vc != nil && o.vc.Replay != nil && o.res != nil && o.res.Model != nil && o.vc.Replay.Kind == "step" && len(cases) < 400 {
-			src := ld.genStepReplay(o.res.Model, o.vc.Replay, i)
+		if o.Status == "failed" && o.vc != nil && o.vc.Replay != nil && o.res != nil && o.res.Model != nil && (o.vc.Replay.Kind == "step" || o.vc.Replay.Kind == "rel") && len(cases) < 400 {
+			var src string
+			if o.vc.Replay.Kind == "rel" {
+				src = ld.genRelReplay(o.res.Model, o.vc.Replay, i)
+			} else {
+				src = ld.genStepReplay(o.res.Model, o.vc.Replay, i)
+			}
 			rf.Test = src
 			body.WriteString(src)
 			cases = append(cases, i)
@@ -281,7 +360,7 @@ func (r *Run) reportFailures(ld *Loaded, os_ []*OblResult, compMask func(string)
 		noInput := true
 		if out, ok := outByCase[i]; ok {
 			rf.TestOutput = truncate(out, 6000)
-			if strings.Contains(out, "REPLAY-PANIC") || strings.Contains(out, "REPLAY-FRAME") {
+			if strings.Contains(out, "REPLAY-PANIC") || strings.Contains(out, "REPLAY-FRAME") || strings.Contains(out, "REPLAY-DIVERGENCE") {
 				rf.Reproduced = true
 			}
 			for _, ln := range strings.Split(out, "\n") {
